@@ -446,6 +446,7 @@ import mir_jobs_limits  # noqa: E402,F401  (registers the limits module jobs)
 import mir_jobs_auth    # noqa: E402,F401  (registers the access rule evaluation jobs)
 import mir_jobs_subintent    # noqa: E402,F401  (registers the subintent structure job)
 import mir_jobs_account    # noqa: E402,F401  (registers the account deposit jobs)
+import mir_jobs_addr    # noqa: E402,F401  (registers the address codec jobs)
 
 
 def _index():
